@@ -59,9 +59,10 @@ const (
 	injNext  injKind = iota // sealed under generation authorised+1 (queueable future epoch)
 	injNext2                // sealed under generation authorised+2 (beyond the queueable future epoch)
 	injOld                  // sealed under every generation older than the authorised one, each sent twice
+	injLegacy               // junk (no keys) in DTLSPlaintext framing naming the receiver's current and next epoch, far-ahead sequence numbers
 )
 
-var injNames = [...]string{"next", "next2", "old"}
+var injNames = [...]string{"next", "next2", "old", "legacy"}
 
 type inject struct {
 	At   int // injected at the quiescent point before operation At (len(Ops) = after the last one)
@@ -396,6 +397,31 @@ func (x *exec) doInject(in inject, maxGen int) {
 	before := x.view(to, maxGen)
 	emittedBefore := x.w.EmittedCount()
 	readsBefore := len(x.readsOf(to))
+	if in.Kind == injLegacy {
+		// Unauthenticated records in DTLS 1.2 record framing that name a protected epoch: they cannot open
+		// under any key, so they must leave no trace — in particular not in the anti-replay state of that
+		// epoch (the genuine writes that follow must still be delivered).
+		for _, ep := range []int{firstAppEp + auth, firstAppEp + auth + 1} {
+			for _, typ := range []byte{22, 21, 26, 23} {
+				for _, seq := range []uint64{100000, 1 << 40} {
+					body := []byte(fmt.Sprintf("LEGACY-FRAMED-JUNK-%d-%d-%d-0123456789abcdef", ep, typ, seq))
+					rec := []byte{typ, 0xfe, 0xfd, byte(ep >> 8), byte(ep), byte(seq >> 40), byte(seq >> 32), byte(seq >> 24), byte(seq >> 16), byte(seq >> 8), byte(seq), byte(len(body) >> 8), byte(len(body))}
+					x.w.Logf("inject legacy-framed junk type %d epoch %d seq %d -> %s", typ, ep, seq, to)
+					x.push(from, to, append(rec, body...))
+				}
+			}
+		}
+		x.quiesce()
+		after := x.view(to, maxGen)
+		if got := x.readsOf(to); len(got) != readsBefore {
+			x.problemf("unauthenticated-legacy-framed-record-delivered", "an unauthenticated record in DTLS 1.2 framing was delivered to %s.Read (%q)", to, got[len(got)-1].data)
+		}
+		if after.remoteEpoch != before.remoteEpoch || after.localEpoch != before.localEpoch || after.closed != before.closed {
+			x.problemf("unauthenticated-legacy-framed-record-changed-state", "epochs/closed changed from %d/%d/%v to %d/%d/%v after unauthenticated records in DTLS 1.2 framing",
+				before.localEpoch, before.remoteEpoch, before.closed, after.localEpoch, after.remoteEpoch, after.closed)
+		}
+		return
+	}
 	for _, p := range plan {
 		if p.gen > maxGen {
 			continue
